@@ -1,0 +1,6 @@
+//go:build !verif
+
+package iavl
+
+// verifYield is a no-op in normal builds (see verif_hook.go).
+func verifYield(string) {}
